@@ -71,7 +71,26 @@ class Sub(dict):
         return {"i": lv.int, "f": lv.float}[k[0]]()
 
 
+def _fortran_edit(Tm):
+    """the loaded template with its parameter arrays replaced by Fortran-ordered copies (same contents, other memory layout),
+    the way a program edited through the API may hold them"""
+    for k, arr in list(Tm._var.items()):
+        if isinstance(arr, np.ndarray) and arr.ndim == 2 and arr.dtype == object and min(arr.shape) > 1:
+            new = np.array(np.ndarray.tolist(arr), dtype=object).copy(order="F")
+            Tm._var[k] = new
+            for o in Tm._operations:
+                if "args" in o:
+                    o["args"] = [new if a is arr else a for a in o["args"]]
+                if "kwargs" in o:
+                    o["kwargs"] = {kk: (new if a is arr else a) for kk, a in o["kwargs"].items()}
+    return Tm
+
+
 def gen(spec, lv):
+    if spec[-1] == "fortran":
+        g = gen(spec[:-1], lv)
+        g["edit"] = _fortran_edit
+        return g
     kind = spec[0]
     if kind == "symx":
         # systematic expression shapes over parameters (generator shared with C01)
@@ -141,6 +160,9 @@ def gen_specs(tier, seed):
     for nm in WHOLE:
         for use in ("none", "arg", "idx", "loop_arg", "loop_kwarg", "loop_idx", "loop_both"):
             specs.append(("whole", nm, use))
+    # parameter arrays in another memory layout (a template edited through the API)
+    specs += [s + ("fortran",) for s in specs if s[0] in ("array", "whole") and s[2] in ("arg", "kwarg", "loop_arg")
+              and (s[0] == "whole" or min(len(ARRAYS[s[1]][1]), len(ARRAYS[s[1]][1][0])) > 1)]
     from . import c01
     sx = [x for x in c01.symx_specs() if x[0] == "param" and x[1] not in (("a", "b", "a"), ("a", "3", "2"))]
     specs += [("symx", x) for x in (sx[(seed % 9)::9] if tier == "quick" else sx)]
@@ -220,6 +242,8 @@ def run_spec(spec):
 
     def run():
         Tm = bb.loads(text)
+        if g.get("edit"):
+            Tm = g["edit"](Tm)
         res = {"T": Tm, "params": set(Tm.parameters), "is_template": Tm.is_template()}
         if names:
             kw = {n: proxify(v) for n, v in vals.items()}
@@ -318,15 +342,18 @@ def concrete_check(spec, leafvals, parvals, w=None):
     w = w or _script.plain_env()
     bb = w["bb"]
     lv = skel.Leaves(values=leafvals)
-    text = gen(spec, lv)["text"]
+    g = gen(spec, lv)
+    text = g["text"]
     vals, flat = build_values(text, False, [float(x) for x in parvals])
     toks = w["lang"].real_tokens_pos(text)
     try:
         rt = RI.Interp(toks, T.PyAlg, lv.leaf, False, params=None).run()
         it = RI.Interp(toks, T.PyAlg, lv.leaf, False, params=flat)
         ri = it.run()
-    except Exception:  # noqa
+    except (RX.RefError, RI.Reject, ArithmeticError, ValueError):
         return "skip"
+    except Exception as e:  # noqa
+        raise common.HarnessError("reference interpreter failed on %r: %r" % (text, e))
     if not it.dom.ok:
         return "skip"
     base = {"text": text, "values": list(leafvals) + list(parvals), "call": repr(vals)}
@@ -336,6 +363,8 @@ def concrete_check(spec, leafvals, parvals, w=None):
     try:
         with np.errstate(all="ignore"):
             Tm = bb.loads(text)
+            if g.get("edit"):
+                Tm = g["edit"](Tm)
             want = set(rt.parameters)
             if set(Tm.parameters) != want:
                 return dict(base, what="template.parameters", observed=repr(sorted(Tm.parameters)), expected=repr(sorted(want)))
